@@ -189,6 +189,9 @@ class FunctorPool:
             # must be set before the thread is started, because the consumer may test them before run() gets the cpu
             self.pool._sending_work = True
             self.pool._data_cnt = 0
+            # it is set after every change of _data_cnt or _sending_work
+            # the consumer waits for it when it has nothing to read from the results queue
+            self.progress_event = threading.Event()
 
         def run(self) -> None:
             def chunking(d):
@@ -204,11 +207,13 @@ class FunctorPool:
             for i, chunk in enumerate(chunking(self.data)):
                 self.pool._work_queue.put((i, chunk))
                 self.pool._data_cnt += 1
+                self.progress_event.set()
                 if self.stop_event.is_set():
                     break
                 self.run_event.wait()
 
             self.pool._sending_work = False
+            self.progress_event.set()
 
     def __init__(self, workers: List[BaseFunctorWorker[T, R]], context: Optional[BaseContext] = None,
                  work_queue_maxsize: Optional[Union[int, float]] = 1.0,
@@ -297,6 +302,25 @@ class FunctorPool:
         for p in self.procs:
             p.begin_finished.wait()
 
+    def _result_is_owed(self, send_thread: "FunctorPool.SendWorkThread", finished_cnt: int) -> bool:
+        """
+        Waits until there is a sent chunk whose result was not consumed yet, or until all the work is done.
+        The blocking read of the results queue is safe only when a result is owed, otherwise it may wait forever
+        (e.g. when the input iterable signals its end later than the last result is consumed).
+
+        :param send_thread: the thread that is sending the work
+        :param finished_cnt: number of chunks that were already consumed
+        :return: True when a result is owed. False when all the work was sent and all the results were consumed.
+        """
+        while True:
+            send_thread.progress_event.clear()
+            if finished_cnt < self._data_cnt:
+                return True
+            if not self._sending_work:
+                # _data_cnt could be incremented between the two tests
+                return finished_cnt < self._data_cnt
+            send_thread.progress_event.wait()
+
     def _get_results(self) -> Tuple[List[int], List[R]]:
         """
         Gets all results from results queue if there are no results it will wait until there are some.
@@ -337,7 +361,7 @@ class FunctorPool:
         finished_cnt = 0
 
         with self.SendWorkThread(self, data, chunk_size) as send_thread:
-            while self._sending_work or finished_cnt < self._data_cnt:
+            while self._result_is_owed(send_thread, finished_cnt):
                 indices, chunks = self._get_results()
                 for res_i, res_chunk in zip(indices, chunks):
                     for ch in buffer(res_i, res_chunk):
@@ -362,8 +386,8 @@ class FunctorPool:
         """
         finished_cnt = 0
 
-        with self.SendWorkThread(self, data, chunk_size):
-            while self._sending_work or finished_cnt < self._data_cnt:
+        with self.SendWorkThread(self, data, chunk_size) as send_thread:
+            while self._result_is_owed(send_thread, finished_cnt):
 
                 indices, chunks = self._get_results()
                 for res_i, res_chunk in zip(indices, chunks):
